@@ -38,6 +38,7 @@ theorem ASim.restrict {u₁ u₂ : St} (h : ASim P u₁ u₂) (N G : Nat) (hN : 
   · exact h.bxlt
   · exact h.bne
   · exact h.wf
+  · exact h.dex
   · intro i n hd hn
     exact h.nodes i n hd.1 hn
   · intro j g hd hg
@@ -77,6 +78,7 @@ theorem ASim.glue (ok : P.Ok) {u₁ u₂ v₁ v₂ : St} (h : ASim P u₁ u₂) 
   · exact h'.bxlt
   · exact h'.bne
   · exact h'.wf
+  · exact h'.dex
   · intro i n hd hn
     rcases Nat.lt_or_ge i N with hi | hi
     · rw [fn1 i hi] at hn
